@@ -36,6 +36,18 @@ func (r roots) methodIndex(method string) int {
 	return -1
 }
 
+// route returns the route registered for the exact pattern, or nil.
+func (r roots) route(method, pattern string) *Route {
+	index := r.methodIndex(method)
+	if index < 0 {
+		return nil
+	}
+	if n := r.search(r[index], pattern); n != nil && n.isLeaf() && n.route.pattern == pattern {
+		return n.route
+	}
+	return nil
+}
+
 func (r roots) search(rootNode *node, path string) (matched *node) {
 	current := rootNode
 
@@ -464,9 +476,9 @@ Walk:
 				}
 			}
 
-			// linear search
+			// linear search (a catch-all child is never a static match, even for a segment starting with '*')
 			idx := -1
-			for i := 0; i < len(current.childKeys); i++ {
+			for i := 0; i < len(current.childKeys) && path[charsMatched] != starDelim; i++ {
 				if current.childKeys[i] == path[charsMatched] {
 					idx = i
 					break
